@@ -49,6 +49,22 @@ def gen_cases(rng, tier):
         add(b, "nasty")
         add(b + b"\n", "nasty")
         add(b"x = 1\n" + b, "nasty")
+    # the serde tunnel of date-times is in-band: a table whose key spells the private field name is handed to
+    # `Datetime::from_str` by the Datetime / Date / Time targets and by toml::Value — with ANY string as its value; and the
+    # standalone parser's own results are fed back through `Value::Datetime(..).try_into::<Date | Time | Datetime>()`
+    PRIV = b'"$__toml_private_datetime"'
+    DT_STRINGS = [b"07:32:00Z", b"07:32:00+01:00", b"07:32:00-00:00", b"07:32:00z", b"1979-05-27", b"1979-05-27T07:32:00", b"1979-05-27 07:32:00Z",
+                  b"1979-05-27T07:32:00.999999999999+23:59", b"1979-05-27Z", b"1979-05-27+01:00", b"T07:32:00", b"07:32", b"", b" ", b"x", b"24:00:00",
+                  b"1979-13-01", b"0000-01-01T00:00:60Z", b"9999-12-31T23:59:60.999999999-23:59", b"07:32:00.", b"07:32:00.1Z"]
+    for d in DT_STRINGS:
+        add(d, "datetime-string")
+        q = b'"' + d + b'"'
+        for doc in (b"t = { " + PRIV + b" = " + q + b" }\n", b"[t]\n" + PRIV + b" = " + q + b"\n", PRIV + b" = " + q + b"\n",
+                    b"t = [{ " + PRIV + b" = " + q + b" }]\n", b"t = { " + PRIV + b" = " + q + b", x = 1 }\n", b"t = { " + PRIV + b" = 1 }\n",
+                    b"t = { " + PRIV + b" = [" + q + b"] }\n"):
+            add(doc, "datetime-tunnel")
+    for doc in (b"t = {}\n", b"[t]\n", b"t = [{}]\n", b"[[t]]\n", b"# only a comment\n", b"t = { x = 1 }\n"):
+        add(doc, "datetime-tunnel")
     n_rand = 6000 if tier == "quick" else 600000
     for _ in range(n_rand):
         n = rng.choice([1, 2, 3, 5, 8, 16, 40, 100])
@@ -120,9 +136,20 @@ def oracle(case, line):
     return None
 
 
+PRIVATE_NAMES = (b"$__toml_private_datetime", b"$__toml_private_Datetime", b"$__serde_spanned_private_")
+
+
 def compare(case, model_line, impl_line):
     il = impl_line.split(" SLOW=")[0]
-    return None if model_line == il else "entry-point verdicts differ"
+    if model_line == il:
+        return None
+    if any(p in case.args[0] for p in PRIVATE_NAMES):
+        # F14 (known finding private-datetime-key, registered under C01 / C07 / C13 / C14): the serde front ends take a table whose
+        # key spells the private name for a date-time; the `fuzz` line of the model does not follow that in-band signalling, so only
+        # the verdicts of toml_edit's own entry points are compared on such inputs (the panic / time oracle is unaffected)
+        own = lambda l: " ".join(x for x in l.split(" ") if x.split("=")[0] in ("utf8", "doc", "val", "key", "kp", "dt"))
+        return None if own(model_line) == own(il) else "entry-point verdicts differ"
+    return "entry-point verdicts differ"
 
 
 def nontrivial(case, line):
